@@ -1,10 +1,47 @@
 package rules
 
 import (
+	_ "embed"
+	"encoding/json"
 	"os"
 	"path/filepath"
 	"strings"
 )
+
+// controls2.json: further controls with multi-line / multi-file edits
+// (generated from the current source when they were written; located by text).
+//
+//go:embed controls2.json
+var controls2JSON []byte
+
+type ctl2 struct {
+	Props    []string `json:"props"`
+	Name     string   `json:"name"`
+	Positive bool     `json:"positive"`
+	Rule     string   `json:"rule"`
+	Edits    []struct {
+		File, Old, New string
+	} `json:"edits"`
+}
+
+func (c ctl2) edit(repo string) (map[string][]byte, bool) {
+	out := map[string][]byte{}
+	for _, e := range c.Edits {
+		path := filepath.Join(repo, e.File)
+		b, ok := out[path]
+		if !ok {
+			var err error
+			if b, err = os.ReadFile(path); err != nil {
+				return nil, false
+			}
+		}
+		if !strings.Contains(string(b), e.Old) {
+			return nil, false
+		}
+		out[path] = []byte(strings.Replace(string(b), e.Old, e.New, 1))
+	}
+	return out, len(out) > 0
+}
 
 // Controls (thorough tier): semantic edits of the *current* source applied
 // through a go/packages overlay, nothing is written to disk. A positive
@@ -86,7 +123,11 @@ var controlTable = []ctl{
 	{[]string{"C19"}, "publish-despite-errors", true, "R19.1", "internal/driver/config/opl_config_namespace_watcher.go", "\t\treturn false\n\t}\n\tnw.set(namespaces)", "\t}\n\tnw.set(namespaces)", false},
 	{[]string{"C19"}, "set-merges-into-live-map", true, "R19.6", "internal/driver/config/namespace_memory.go", "\ts.byName = make(map[string]*namespace.Namespace, len(nn))\n", "\tif s.byName == nil {\n\t\ts.byName = make(map[string]*namespace.Namespace, len(nn))\n\t}\n", false},
 
-	// ---- negative controls (behaviour-preserving rewrites)
+	{[]string{"C13"}, "recovery-not-first", true, "R13.3", "internal/driver/daemon.go", "is := []grpc.UnaryServerInterceptor{\n\t\tgrpcRecovery.UnaryServerInterceptor(grpcRecovery.WithRecoveryHandler(r.grpcRecoveryHandler)),\n\t}", "is := []grpc.UnaryServerInterceptor{\n\t\therodot.UnaryErrorUnwrapInterceptor,\n\t\tgrpcRecovery.UnaryServerInterceptor(grpcRecovery.WithRecoveryHandler(r.grpcRecoveryHandler)),\n\t}", false},
+	{[]string{"C15"}, "add-blocks-uncancellably", true, "R15.4", "internal/check/checkgroup/concurrent_checkgroup.go", "\t\tselect {\n\t\tcase g.addCheckCh <- check:\n\t\tcase <-g.subcheckCtx.Done():\n\t\t}\n", "\t\tg.addCheckCh <- check\n", false},
+	{[]string{"C03"}, "storage-layer-logs-query-error", true, "R03.5", "internal/persistence/sql/traverser.go", "\t\terr = query.Where(\"relation IN (?)\", relations).Limit(1).All(&rows)\n\t\tif err != nil {\n\t\t\treturn nil, sqlcon.HandleError(err)\n\t\t}", "\t\terr = query.Where(\"relation IN (?)\", relations).Limit(1).All(&rows)\n\t\tif err != nil {\n\t\t\tt.d.Logger().WithError(sqlcon.HandleError(err)).Warn(\"lookup failed\")\n\t\t}", false},
+	// ---- negative controls
+	{[]string{"C13"}, "neg-chain-built-by-append", false, "", "internal/driver/daemon.go", "is := []grpc.UnaryServerInterceptor{\n\t\tgrpcRecovery.UnaryServerInterceptor(grpcRecovery.WithRecoveryHandler(r.grpcRecoveryHandler)),\n\t}", "is := make([]grpc.UnaryServerInterceptor, 0, 8)\n\tis = append(is, grpcRecovery.UnaryServerInterceptor(grpcRecovery.WithRecoveryHandler(r.grpcRecoveryHandler)))", false},
 	{[]string{"C01", "C02", "C03"}, "neg-or-condition-reordered", false, "", "internal/check/binop.go", "if result.Err != nil || result.Membership == checkgroup.IsMember {", "if result.Membership == checkgroup.IsMember || result.Err != nil {", false},
 	{[]string{"C03", "C15"}, "neg-error-wrapped-before-errorfunc", false, "", "internal/check/engine.go", "} else if err != nil {\n\t\t\tg.Add(checkgroup.ErrorFunc(err))", "} else if err != nil {\n\t\t\tg.Add(checkgroup.ErrorFunc(errors.WithStack(err)))", false},
 	{[]string{"C01", "C04", "C06", "C07"}, "neg-sql-reformatted", false, "", "internal/persistence/sql/traverser.go", "WHERE current.nid = ? AND\n      current.shard_id > ? AND", "WHERE   current.nid = ?   AND\n\n      current.shard_id > ?\n AND", false},
@@ -103,6 +144,18 @@ var controlTable = []ctl{
 }
 
 func init() {
+	var c2 []ctl2
+	if err := json.Unmarshal(controls2JSON, &c2); err != nil {
+		panic(err)
+	}
+	for _, c := range c2 {
+		c := c
+		for _, id := range c.Props {
+			if p := registry[id]; p != nil {
+				p.Controls = append(p.Controls, Control{Name: c.Name, Positive: c.Positive, Rule: c.Rule, Edit: c.edit})
+			}
+		}
+	}
 	for _, c := range controlTable {
 		c := c
 		for _, id := range c.props {
